@@ -206,6 +206,9 @@ public:
   }
   void stop() override
   {
+    // Serialize concurrent stop() calls: the caller that loses the _running
+    // exchange must not return while the winner is still joining the I/O thread.
+    std::lock_guard<std::mutex> stopLock(_stopMutex);
     bool exp = true;
     if (!_running.compare_exchange_strong(exp, false))
       return;
@@ -1751,6 +1754,7 @@ private:
   // without revisiting this invariant.
   int _epollFd{-1}, _eventFd{-1}, _timerFd{-1};
   std::thread _loop;
+  std::mutex _stopMutex; // serializes stop(): a second caller waits for the join
   // Deferred self-destruct deleter (delete-this-at-thread-end). Written/read
   // ONLY on the I/O thread (set pre-detach, run post-loop()); no synchronization.
   std::function<void()> _selfDestruct;
